@@ -142,8 +142,9 @@ L['C12'] = dict(modules=['Schc.Properties.C12'], level='proof', technique='Lean 
               T('C12_redump', 'full', 're-serialising the reloaded context gives the same JSON'),
               T('C12_same_behaviour', 'full', 'any function of the context (manager compress / decompress / matching) gives the same result on the reloaded context'),
               T('C12_pyEq', 'full', 'the reloaded context compares equal under the library\'s __eq__ methods'),
-              T('C12_roundtrip_field', 'full', 'FieldDescriptor'), T('C12_roundtrip_packet', 'full', 'PacketDescriptor (direction, fields, payload, raw)')],
-    level_text='Proved for all buffers (any length, alignment, side) and all contexts whose mappings are invertible (distinct values, prefix-free indices) and whose no-compression rules carry no descriptors. Equality is literal in a model that keeps everything the code can observe, so equal behaviour is congruence. Trusted: json.dumps/json.loads on a tree of dict/list/str/int; that enum members reloaded as plain str are only compared with == / in (watched by the json stream, which drives original and reloaded contexts through the real manager and compares SCHC packets and decompressed packets). FieldDescriptor and PacketDescriptor round trips are C12_roundtrip_field / C12_roundtrip_packet; HeaderDescriptor (id, length, fields) has the same shape and is compared by correspondence only.')
+              T('C12_roundtrip_field', 'full', 'FieldDescriptor'), T('C12_roundtrip_header', 'full', 'HeaderDescriptor (id, length, fields) through json() / from_json()'),
+              T('C12_roundtrip_packet', 'full', 'PacketDescriptor (direction, fields, payload, raw)')],
+    level_text='Proved for all buffers (any length, alignment, side) and all contexts whose mappings are invertible (distinct values, prefix-free indices) and whose no-compression rules carry no descriptors. Equality is literal in a model that keeps everything the code can observe, so equal behaviour is congruence. Trusted: json.dumps/json.loads on a tree of dict/list/str/int; that enum members reloaded as plain str are only compared with == / in (watched by the json stream, which drives original and reloaded contexts through the real manager and compares SCHC packets and decompressed packets). FieldDescriptor, HeaderDescriptor and PacketDescriptor round trips are C12_roundtrip_field / C12_roundtrip_header / C12_roundtrip_packet; every class, MatchMapping and HeaderDescriptor included, also goes through its own json() / from_json() in the json stream.')
 
 L['C13'] = dict(modules=['Schc.Properties.C13'], level='proof', technique='Lean 4 refinement of the byte-level Buffer model (constructor, shift loops, re-padding) to bit lists',
     theorems=[T('C13_canonical', 'full', 'every Buffer the constructor returns is the canonical Buffer of its bits, for ANY content'),
@@ -187,6 +188,8 @@ L['C19'] = dict(modules=['Schc.Properties.C19'], level='proof', technique='Lean 
               T('C19_single_unparse', 'full', 'the same for the CoAP parser alone'),
               T('C19_stack_roundtrip', 'full', 'parse with the semantic stack, compress with any fitting lossless rule, decompress with the parser as unparser: the packet, bit for bit'),
               T('C19_stack_roundtrip_compute', 'full', 'the same with IPv6 payload length / UDP length / UDP checksum as compute fields (any subset): un-parse first, then compute over the re-encoded options; valid packets come back bit for bit'),
+              T('C19_unparse_nothing_lost', 'full', 'any stack without a semantic CoAP parser — header classes listed twice, prediction, any field order: PacketParser.unparse returns a permutation of its input (nothing lost, nothing duplicated)'),
+              T('C19_unparse_predictive', 'full', 'a one-parser (predictive) stack as unparser: own header fields, then predicted headers and payload, come back unchanged in order'),
               T('C19_stack_roundtrip_compute4', 'full', 'the IPv4 variant: total length, header checksum, UDP length, UDP checksum as compute fields (any subset)')],
     level_text='Proved for messages of any length with any number of options, any option numbers (known and unknown to the library), any deltas and value lengths, with and without payload, under the hypothesis that no delta/length nibble is the reserved value 15 (RFC 7252 cannot encode such options; an example shows the hypothesis is needed). Values compared as (field id, Buffer) pairs, exactly. Trusted/abstracted: Python re.match and int() on the rendered OPTION_UNKNOWN(n) id are modelled by unknownOptionNumber (checked by the parse stream on unknown options); str(Enum) rendering is read from the running interpreter by the translator. PacketParser.unparse dispatch (parser.py) is covered by correspondence, not by this theorem.')
 for k in L:
